@@ -223,6 +223,21 @@ func (p *Policy) triviaPieces(kind GapKind, must bool, prevLast byte, lay *Layou
 	return out
 }
 
+// openLineComment appends (1 time in 3, full policy only) a "//" or "#" comment that is not ended
+// by a newline: the caller guarantees that a close tag or the end of the input follows.
+func (p *Policy) openLineComment(ps []piece, prevLast byte, lay *Layout, class string) []piece {
+	if p.T == nil || p.Kind != PolicyFull || p.draw(3, "openlinecomment") != 0 {
+		return ps
+	}
+	if len(ps) == 0 && (prevLast == '/' || prevLast == '<' || prevLast == '*') {
+		ps = append(ps, piece{token.T_WHITESPACE, " "})
+	}
+	intro := []string{"//", "#"}[p.draw(2, "intro")]
+	ps = append(ps, piece{token.T_COMMENT, intro + lineCommentTexts[p.draw(len(lineCommentTexts), "ltext")]})
+	lay.Classes[class] = true
+	return ps
+}
+
 // normalize merges adjacent whitespace pieces and moves an LF that directly
 // follows a comment ending in CR into that comment (the lexer reads CRLF as
 // one terminator).
@@ -332,6 +347,7 @@ func (g *Gen) Render(root *ast.Root, pol Policy) *Layout {
 					ps = append(ps, piece{token.T_WHITESPACE, g.nl(pol)})
 				}
 				ps = append(ps, pol.triviaPieces(GapFree, false, prevLast, lay)...)
+				ps = pol.openLineComment(ps, prevLast, lay, "line-comment-at-eof")
 			} else if pol.Kind == PolicySpace || needNL {
 				ps = append(ps, piece{token.T_WHITESPACE, "\n"})
 			}
@@ -356,6 +372,10 @@ func (g *Gen) Render(root *ast.Root, pol Policy) *Layout {
 				must = false
 			}
 			ps = append(ps, pol.triviaPieces(kind, must, prevLast, lay)...)
+			if kind != GapNone && kind != GapWS && t.ID == token.ID(';') && bytes.HasPrefix(t.Value, []byte("?>")) {
+				// a single-line comment also ends at a close tag (which it does not swallow)
+				ps = pol.openLineComment(ps, prevLast, lay, "line-comment-before-close-tag")
+			}
 		}
 		ff := mk(ps)
 		if len(ff) == 0 {
